@@ -11,7 +11,11 @@
 #include "TFEL/Math/TinyNewtonRaphsonSolver.hxx"
 #include "TFEL/Math/TinyBroydenSolver.hxx"
 #include "TFEL/Math/TinyBroyden2Solver.hxx"
+// the Powell dog-leg .ixx files reuse the include guards of the plain Newton / Broyden ones (upstream quirk):
+// without these #undef the second of each pair is skipped and computeNewCorrection is left undefined
+#undef LIB_TFEL_MATH_TINYNEWTONRAPHSONSOLVER_IXX
 #include "TFEL/Math/TinyPowellDogLegNewtonRaphsonSolver.hxx"
+#undef LIB_TFEL_MATH_TINYBROYDENSOLVER_IXX
 #include "TFEL/Math/TinyPowellDogLegBroydenSolver.hxx"
 #include "TFEL/Math/TinyLevenbergMarquardtSolver.hxx"
 using vp::Json;
